@@ -154,6 +154,9 @@ func (ex *Exec) verifyFunc(key string) error {
 				}
 			}
 		}
+		if sp != nil && sp.HasMod {
+			ex.checkFrame(st2, fr, sp, key)
+		}
 		if len(st2.held) > 0 && (sp == nil || len(sp.Holds) == 0) {
 			ex.lockLeak(st2, fr)
 		}
@@ -919,4 +922,73 @@ func (ex *Exec) registerSpecCounters() {
 			}
 		}
 	}
+}
+
+// checkFrame: a declared "modifies" clause is proved, not trusted: everything the body may have
+// written (syntactic over-approximation) but that the clause does not list is unchanged at return.
+func (ex *Exec) checkFrame(st *State, fr *Frame, sp *FuncSpec, key string) {
+	declared := map[string]bool{}
+	for _, m := range sp.Modifies {
+		declared[m] = true
+	}
+	labels := ex.allLabels(sp)
+	ms := ex.funcModSet(fr.fn)
+	okCnt := func(c string) bool {
+		for d := range declared {
+			if !strings.HasPrefix(d, "cnt:") {
+				continue
+			}
+			dk := strings.TrimPrefix(d, "cnt:")
+			if dk == c || (strings.HasSuffix(dk, "*") && strings.HasPrefix(c, strings.TrimSuffix(dk, "*"))) {
+				return true
+			}
+		}
+		return false
+	}
+	for _, c := range ex.expandCounters(st, ms) {
+		if okCnt(c) || !frameCounter(c) {
+			continue
+		}
+		now := st.counter(c)
+		was, ok := fr.entryCnt[c]
+		if !ok {
+			was = ex.cntInit[c]
+		}
+		if now == was {
+			continue
+		}
+		ex.oblige(st, "frame", key+"/frame.cnt."+smtSym(c), labels, smtEq(now, was), nil, ex.posOf(fr.retInstr))
+	}
+	for _, a := range ms.arrays() {
+		if declared[a] || a == "closed" || a == "ctxdone" || strings.HasPrefix(a, "chlen") || strings.HasPrefix(a, "visited.") || strings.HasPrefix(a, "arr.") || strings.HasPrefix(a, "cell.") {
+			continue
+		}
+		if !st.dirty[a] {
+			continue // only objects allocated by this call were written
+		}
+		es, known := ex.heapSort[a]
+		if !known {
+			continue
+		}
+		now := st.arr(a, es)
+		was := st.arrIn(fr.entryHeap, a, es)
+		if now == was {
+			continue
+		}
+		// writes to objects allocated by this call are invisible to the caller: compare on non-negative refs only
+		goal := "(forall ((r Int)) (=> (>= r 0) (= (select " + now + " r) (select " + was + " r))))"
+		ex.oblige(st, "frame", key+"/frame."+smtSym(a), labels, goal, nil, ex.posOf(fr.retInstr))
+	}
+}
+
+// frameCounter: ghost counters that contracts talk about (transport traffic, channel operations,
+// goroutine starts, calls of functions under contract, user callbacks, stats events). Counters of
+// pure library helpers are not part of a frame claim; a contract call havocs them regardless.
+func frameCounter(c string) bool {
+	for _, p := range []string{"(types.RpcReadWriter)", "send", "recv", "go:", "call:", "HandleRPC", "HandleConn", "fnfield:", "fnvalue:", "cancelfn", "close", "(google.golang.org/grpc/encoding.CodecV2)", "(google.golang.org/grpc/stats.Handler)"} {
+		if strings.HasPrefix(c, p) {
+			return true
+		}
+	}
+	return false
 }
